@@ -65,12 +65,13 @@ CHECKS["C07"] = dict(
     level_note=LVL_NOTE,
     title="Field lookup finds exactly the present names and never loses later fields",
     rule="explicit-state part as C06 with the lookup alphabet = present names, a proper prefix and an extension of each, a name before/after everything, the empty name, "
-         "through field/field_with_length/field_ensure/field_ensure_with_length incl. wrong-type ensure (terminal: must return false and set WRONG_TYPE). random part: objects with "
+         "through field/field_with_length/field_ensure/field_ensure_with_length incl. wrong-type ensure (terminal: must return false and set WRONG_TYPE); a second exhaustive pass (c07h) names the children by position from the bytewise ascending family '' < a < a\\0 < aa < b\\xff < \\x80 < \\xff and looks up every family member plus seven near misses (a\\0\\0, ab, b, \\x7f, \\x80\\0, \\0, aa\\0). random part: objects with "
          "names from prefix/extension/sign/NUL families and 127..300-byte names x random lookup series (ascending-only series in a third of the cases) interleaved with next/enter/leave. "
          "non-trivial = walk of >= 3 calls; distinct = hash(document, call list)",
     exhaustive_note="all trees with <= N nodes x all reachable product states x the full lookup alphabet",
     assumptions=["reference cursor vc_field is the specification of a lookup", "lookups are issued only inside objects"],
     jobs=[dict(name="c07x", src=WALK, build="gasan", mode="c07x", cases=(28506, 2450522), opt=("6", "8"), require=["product_states", "lookups_found", "lookups_absent", "wrong_type_raised"]),
+          dict(name="c07h", src=WALK, build="gasan", mode="c07x", cases=(28506, 259674), opt=("6 hostile", "7 hostile"), require=["product_states", "lookups_found", "lookups_absent"]),
           dict(name="c07r", src=WALK, build="gasan", mode="c07r", cases=(200000, 5000000), require=["calls", "lookups_found", "lookups_absent"])],
 )
 
